@@ -25,8 +25,15 @@ class SimClock:
         self.total_advanced = 0.0
         self.jumps = 0
 
+    # The git index stores time stamps as unsigned 32-bit seconds: a clock beyond 2106 is not a
+    # fault the formats under test can meet (dulwich raises struct.error writing the index), and a
+    # clock before 1980 predates git.  Jumps are clamped to [1980, 2100].
+    LO, HI = 315532800.0, 4102444800.0
+
     def advance(self, dt):
-        self.now += dt
+        new = min(max(self.now + dt, self.LO), self.HI)
+        dt = new - self.now
+        self.now = new
         if dt >= 0:
             self.total_advanced += dt
         if dt < 0 or dt > 86400:
